@@ -586,11 +586,11 @@ class C04(Check):
                 orig_connect = net._connect
                 state = {"n": 0}
 
-                async def planned_connect(addr: Any) -> Any:
+                async def planned_connect(addr: Any, *a: Any) -> Any:
                     outcome = rc[state["n"]] if state["n"] < len(rc) else "ok"
                     state["n"] += 1
                     net.set_listener(addr, "accept" if outcome == "ok" else "refuse")
-                    return await orig_connect(addr)
+                    return await orig_connect(addr, *a)
 
                 net._connect = planned_connect  # type: ignore[method-assign]
             holder["rec"] = rec
